@@ -1,11 +1,17 @@
 #!/bin/bash
-# usage: tools_seed_quick.sh <mutant dir> <prop> [prop...]   -- apply patch to a scratch copy of /repo/src and run checks
+# usage: tools_seed_quick.sh <mutant dir> [prop...]   -- apply patch to a scratch copy of /repo/src and run checks (default: all 20, in parallel)
 d=$1; shift
+props="$@"; [ -z "$props" ] && props=$(seq -f "C%02g" 1 20)
 t=$(mktemp -d /tmp/sq_XXXX)
 mkdir -p $t/src && cp -r /repo/src/. $t/src/ && find $t -name "*.so" -delete
 (cd $t && git init -q . 2>/dev/null; git apply --unsafe-paths -p1 --directory=. $d/patch.diff 2>&1 | head -3)
-for p in "$@"; do
-  VERIF_REPO=$t VERIF_NO_EVIDENCE=1 VERIF_CACHE=$t/.c /venv/bin/python -m sa.check $p 2>&1 | grep "^  src\|ANALYSIS-ERROR" | grep -v "^KNOWN" | cut -c1-260
-  echo "== $p rc=${PIPESTATUS[0]}"
+for p in $props; do
+  ( VERIF_REPO=$t VERIF_NO_EVIDENCE=1 VERIF_CACHE=$t/.c /venv/bin/python -m sa.check $p > $t/$p.log 2>&1; echo "rc=$?" >> $t/$p.log ) &
+done; wait
+det=""
+for p in $props; do
+  rc=$(tail -n 1 $t/$p.log)
+  if [ "$rc" != "rc=0" ]; then det="$det $p($rc)"; grep "^  src\|ANALYSIS-ERROR\|Traceback" $t/$p.log | cut -c1-300; fi
 done
+echo "== $(basename $(dirname $d))/$(basename $d) DETECTED_BY:$det"
 rm -rf $t
